@@ -11,7 +11,7 @@ CONSTANTS
   MaxNow = 0
   Pollers = {"q1", "q2", "q3"}
   Admins = {"a1", "a2"}
-  AllowLoss = FALSE
+  AllowLoss = TRUE
 CONSTRAINT HW
 INVARIANTS TypeOK ProdsOnlyUnderKeys TombOnlyForProds NoLostRegistration
 PROPERTIES GoneAtOnce
